@@ -28,6 +28,10 @@
 **                 FIRST lookup on T2; plus lookups alternating between live types that declare X differently
 **   mode=prefix   user classes whose names are prefixes of one another (K1/K10/K100, Pri/Print): run-time types over
 **                 every subset in every declaration order, and statically declared types, every lookup order
+**   mode=names    classes whose NAME collides with what a type record carries besides its instances: "__Name", "__Size",
+**                 other "__" names, "", "_", the type's own name (the type object itself asked as a class, and a run-time
+**                 class of that name) - on every exported type, statically declared user types and run-time types that
+**                 do / do not declare such a class (full=1: every entry-point pair in the two-name histories)
 **   mode=typecmp  (C09) cmp/eq/neq/lt/gt/le/ge/hash of type objects, prefix-related type names included
 **   mode=cast     cast(obj, T) for every ordered pair of exported types
 **   mode=matrix only=fail warm=1 pairs=1  (C12; pairs=1: back-to-back dispatches of a present and an empty member)
@@ -55,7 +59,10 @@
 #define NLONG    6                   /* user classes with long names that differ late or are prefixes of one another */
 #define LG0      (NBC + NRC + NPFX)
 #define RC0      (NBC + NRC + NPFX + NLONG)      /* two slots for class objects that are created and deleted per case */
-#define NU       (NBC + NRC + NPFX + NLONG + 2)
+#define NBK      18                  /* mode=names: classes NAMED like the bookkeeping entries of a type record ("__Name", "__Size", ...) */
+#define BK0      (RC0 + 2)
+#define OW0      (BK0 + NBK)         /* mode=names: two per-type slots - the type object itself asked as a class, a run-time class named like the type */
+#define NU       (OW0 + 2)
 #define MAXINST  256
 
 static void fatal(const char* fmt, ...) {
@@ -236,6 +243,26 @@ static var Telemetry_Pipeline_Stage_Ingest_Frame_Decoder = CelloEmpty(Telemetry_
 static var Telemetry_Pipeline_Stage_Ingest_Frame_Encoder = CelloEmpty(Telemetry_Pipeline_Stage_Ingest_Frame_Encoder);
 static var Telemetry_Pipeline_Stage_Ingest_Frame = CelloEmpty(Telemetry_Pipeline_Stage_Ingest_Frame);
 static var LGI[NLONG][4 + 2];
+
+/*
+** mode=names.  A type record is [cache slots]["__Name", name]["__Size", size][{cls, class-name, instance}...][NULL]; the two
+** entries in front of the instances have the shape of an instance entry.  Classes called like them (and like other things
+** a record could carry) are ordinary classes: statically declared class objects and types that declare instances of them.
+*/
+struct __Name { void (*m0)(var); void (*m1)(var); };
+struct __Size { void (*m0)(var); void (*m1)(var); };
+struct BkDeclN { int64_t a, b; };
+struct BkDeclS { int64_t a, b, c; };
+static var __Name = Cello(__Name);                   /* a class object (and a type) whose own name is "__Name", size 16 */
+static var __Size = CelloEmpty(__Size);
+static var BkDeclN = Cello(BkDeclN, Instance(__Name, rt_m0, rt_m1));
+static var BkDeclS = Cello(BkDeclS, Instance(Pri, rt_m0, rt_m1), Instance(__Size, rt_m0, NULL));
+static var BkDeclNS = CelloEmpty(BkDeclNS, Instance(__Size, rt_m0, rt_m1), Instance(__Name, NULL, rt_m1));
+static var BkNone = Cello(BkDeclN);                  /* declares nothing; named like another type */
+static const char* const BKN[NBK] = { "__Name", "__Size", "__", "__Type", "__Cache", "__Parent", "__Methods", "__Header",
+  "__name", "__size", "__Nam", "__Name_", "__Siz", "__Size_", "", "_", "__Name", "__Size" };   /* the last two: the static class objects */
+static var BKI[NBK][4 + 2];
+static var OWI[2][4 + 2];
 
 /* the raw record, as Cello.h lays it out */
 static struct Type* rec_triples(var T) { return (struct Type*)((var*)T + NCACHE); }
@@ -518,6 +545,9 @@ static var g_ret; static int g_bool;
 static int h_viol;
 static int count_states;              /* this mode contributes to vf.states */
 static int is_rt;
+static int acct_ti = -1;              /* >= 0: a run-time / user type whose configurations are interned like those of the exported types (mode=names) */
+#define ACCT     (!is_rt || acct_ti >= 0)
+#define ACCT_TI(t) (is_rt ? acct_ti : (t)->ti)
 static uint64_t rt_state_changes, configs_seen;
 static int rt_count_nontrivial;
 
@@ -557,6 +587,8 @@ static const char* inst_desc(struct tut* t, var inst, char* buf, size_t cap) {
   if (!inst) return "none";
   var T = ep_on_typeobj(H[h_pos].ep) ? Type : t->T;
   for (struct Type* r = rec_triples(T) + 2; r->name; r++) if (r->inst == inst) { snprintf(buf, cap, "the instance declared for %s", (char*)r->name); return buf; }
+  if (inst == rec_triples(T)[0].inst) return "the type's NAME string (the inst field of the \"__Name\" entry that precedes the instances)";
+  if (inst == rec_triples(T)[1].inst) return "the type's SIZE as a pointer (the inst field of the \"__Size\" entry that precedes the instances)";
   return "a pointer the type does not declare";
 }
 
@@ -579,7 +611,7 @@ static void prepare(struct tut* t, struct lk* k) {
   if (cur_cfg_valid) { X.before = cur_cfg; X.before_id = cur_cfg_id; }
   else {
     get_cfg(t->T, &X.before);
-    X.before_id = is_rt ? 0 : ct_intern(t->ti, &X.before);
+    X.before_id = ACCT ? ct_intern(ACCT_TI(t), &X.before) : 0;
   }
 }
 
@@ -655,8 +687,9 @@ static void judge(struct tut* t, struct lk* k, var exc) {
   int nontriv = changed || !X.present || must_raise;
   cur_cfg = after; cur_cfg_id = 0;
   cur_cfg_valid = exc == NULL;          /* after a raise the harness's own catch/try run before the next lookup */
-  if (!is_rt) {
-    cur_cfg_id = changed ? ct_intern(t->ti, &after) : X.before_id;
+  if (ACCT) {
+    cur_cfg_id = changed ? ct_intern(ACCT_TI(t), &after) : X.before_id;
+    if (changed && is_rt) rt_state_changes++;
     if (nontriv) nt_put(((uint64_t)X.before_id << 24) | ((uint64_t)k->ci << 12) | ((uint64_t)k->ep << 8) | (uint64_t)(k->mi + 1));
   } else {
     if (changed) rt_state_changes++;
@@ -681,7 +714,7 @@ static int run_history(struct tut* t) {
         h_first = 0;
         if (h_restore == 2) restore_world();
         else if (h_restore == 1) { restore_type(TI_TYPE); if (t->ti > 0) restore_type(t->ti); }
-        if (!is_rt) { get_cfg(t->T, &cur_cfg); cur_cfg_id = ct_intern(t->ti, &cur_cfg); cur_cfg_valid = 1; }
+        if (ACCT) { get_cfg(t->T, &cur_cfg); cur_cfg_id = ct_intern(ACCT_TI(t), &cur_cfg); cur_cfg_valid = 1; }
       }
       while (h_pos < HN) {
         prepare(t, &H[h_pos]);
@@ -1663,6 +1696,255 @@ static void mode_prefix(void) {
   vf_extra("prefix_static_type_histories", "%" PRIu64, nst);
 }
 
+/* ---- mode=names: classes NAMED like the bookkeeping entries of a type record ------------------------------------- */
+
+/*
+** Every type record carries two entries of the shape {cls, name, inst} in front of its instances: {NULL, "__Name", the type's
+** name string} and {NULL, "__Size", the size as a pointer}.  They are not instances.  A class object whose own name is
+** "__Name" or "__Size" (any "__" name, "", "_", or the very name of the type that is asked) is an ordinary class: a type
+** answers for it iff it DECLARES an instance under exactly that name; otherwise none / false / ClassError.
+**
+** tuts: the 71 exported types (cold image), statically declared user types (7 of mode=prefix, 6 of this mode - two of them
+** the class objects __Name / __Size themselves, three that declare instances of __Name / __Size) and 19 shapes of run-time
+** types (x new_raw / new_root): no instances, ordinary instances, instances of the colliding names at the first / middle /
+** last position (up to 256 instances), types that are themselves CALLED "__Name", "__Size", "__" or "", a type declaring a
+** class of its own name.  classes: 18 colliding names (16 run-time class objects, 2 static ones) + the type object itself
+** asked as a class + a run-time class called like the type.
+** histories, each from the cold record:  cell: <lookup; same lookup> and <lookup; next entry point> for every entry point x
+** member;  mix: the colliding class and a real class alternating (a rotating class of Cello.h, and the first class the type
+** declares) through entry-point pairs in both orders;  two: every ordered pair of colliding classes alternating;
+** sweep: all colliding classes one after the other (8 starting entry points x 2 directions), then every class of Cello.h
+** and every colliding class again, then c_str(T) / size(T) still what the type was made with.
+*/
+static uint64_t nm_hist, nm_tuts;
+static int nm_full;
+
+struct nmtut { struct tut t; int kind; int idx; size_t size; };   /* kind 0 exported static type, 1 user static type, 2 run-time type */
+
+static void cold_rt(var T) {
+  for (int i = 0; i < NCACHE; i++) ((var*)T)[i] = NULL;
+  for (struct Type* t = rec_triples(T); t->name; t++) t->cls = NULL;
+}
+
+static void nm_class_slot(int idx, var K, const char* nm, var* ibuf, int has_m1) {
+  struct ucls* u = &U[idx];
+  u->obj = K; u->name = nm; u->nmem = 2; u->slot = -1;
+  u->off[0] = offsetof(struct RtC, m0); u->off[1] = offsetof(struct RtC, m1); u->mname[0] = "m0"; u->mname[1] = "m1";
+  struct RtC* body = header_init(ibuf, K, AllocStatic);
+  body->m0 = rt_m0; body->m1 = has_m1 ? rt_m1 : NULL;
+  u->inst[0] = u->inst[1] = body;
+}
+
+static void setup_bk_classes(void) {
+  for (int k = 0; k < NBK; k++) {
+    var K = k == NBK - 2 ? __Name : k == NBK - 1 ? __Size
+          : new_type_raw(BKN[k], (k % 3) == 0 ? sizeof(struct RtC) : (k % 3) == 1 ? 0 : sizeof(var), NULL, 0, (k & 4) ? 2 : 0);
+    const char* rn = raw_name_of(K);
+    if (!rn || strcmp(rn, BKN[k]) != 0) fatal("class object for the name '%s' names itself '%s'", BKN[k], rn ? rn : "?");
+    nm_class_slot(BK0 + k, K, BKN[k], BKI[k], !(k & 1));
+  }
+}
+
+/* one history; returns 1 if it was executed (0: filtered out by replay=) */
+static int nm_run(struct nmtut* n, const char* fmt, ...) {
+  char desc[400];
+  int o = snprintf(desc, sizeof desc, "names tut=%d:%s ", n->idx, n->t.name);
+  va_list ap; va_start(ap, fmt); vsnprintf(desc + o, sizeof desc - (size_t)o, fmt, ap); va_end(ap);
+  if (vf.replay && strcmp(vf.replay, desc) != 0) return 0;
+  vf_watchdog(60);
+  if (n->kind == 0) { is_rt = 0; h_restore = 1; h_desc = desc; acct_ti = -1; }
+  else {
+    is_rt = 1; h_restore = 0; rt_count_nontrivial = 0; acct_ti = 1000 + n->idx;
+    vf_set_cur("%s", desc);
+    if (n->kind == 1) cold_user_static(n->t.T); else cold_rt(n->t.T);
+  }
+  run_history(&n->t);
+  h_desc = NULL;
+  if (n->kind) vf.executions++;
+  nm_hist++;
+  if (vf_want_sample()) vf_sample("%s", desc);
+  return 1;
+}
+
+static const char* nm_kindname(struct nmtut* n) { return n->kind == 0 ? (n->t.T == Terminal ? "static-type:Terminal" : "static-type") : n->kind == 1 ? "static-user-type" : "runtime-type"; }
+
+/* after a sweep: the name and the size the type was made with are still what the API reports */
+static void nm_api_after(struct nmtut* n) {
+  char l[160];
+  volatile const char* cs = NULL; volatile size_t sz = 0;
+  var e = VF_CATCH({ cs = c_str(n->t.T); sz = size(n->t.T); });
+  vf.evaluations += 2;
+  if (e) { snprintf(l, sizeof l, "dispatch/%s/after-name-lookups/c_str-or-size-raised-%s", nm_kindname(n), vf_exc_name(e)); vf_violation(l, NULL, "c_str(T) / size(T) raised %s after the lookups", vf_exc_name(e)); return; }
+  if (strcmp((const char*)cs, n->t.name) != 0) { snprintf(l, sizeof l, "dispatch/%s/after-name-lookups/type-name-changed", nm_kindname(n)); vf_violation(l, NULL, "c_str(T) = \"%s\" after the lookups, the type is called \"%s\"", (const char*)cs, n->t.name); }
+  if (sz != n->size) { snprintf(l, sizeof l, "dispatch/%s/after-name-lookups/type-size-changed", nm_kindname(n)); vf_violation(l, NULL, "size(T) = %zu after the lookups, expected %zu", (size_t)sz, n->size); }
+}
+
+static void nm_tut(struct nmtut* n) {
+  static var owbuf0[4 + 2];
+  /* the per-type classes: the type object itself asked as a class; a run-time class object called like the type (set up by the caller) */
+  nm_class_slot(OW0, n->t.T, n->t.name, owbuf0, 1);
+  int Q[NBK + 2], nq = 0;
+  for (int k = 0; k < NBK; k++) Q[nq++] = BK0 + k;
+  Q[nq++] = OW0; Q[nq++] = OW0 + 1;
+  /* a real class the type declares (the first one), if any */
+  int xdecl = -1;
+  if (n->kind == 0) { struct Type* r = rec_triples(n->t.T) + 2; if (r->name) { xdecl = find_class((const char*)r->name); if (xdecl >= NBC) xdecl = -1; } }
+  else if (n->t.n > 0 && n->t.comp[0] < BK0) xdecl = n->t.comp[0];
+  nm_tuts++;
+  for (int qi = 0; qi < nq; qi++) {
+    int c = Q[qi];
+    /* cell */
+    for (int ep = 0; ep < NEP; ep++) {
+      if (ep == EP_TYPEOF_T) continue;
+      for (int mi = 0; mi < (ep_has_member(ep) ? 2 : 1); mi++) {
+        HN = 0; push_op(c, ep, mi); push_op(c, ep, mi);
+        nm_run(n, "cls=%d:%s f=cell ep=%d m=%d again=same", qi, U[c].name, ep, mi);
+        HN = 0; push_op(c, ep, mi); push_op(c, (ep + 1) % 8, 1 - mi);
+        nm_run(n, "cls=%d:%s f=cell ep=%d m=%d again=next", qi, U[c].name, ep, mi);
+      }
+    }
+    /* mix with a real class */
+    for (int ep1 = 0; ep1 < 8; ep1++) for (int k2 = 0; k2 < (nm_full ? 8 : 2); k2++) {
+      int ep2 = nm_full ? k2 : k2 == 0 ? (ep1 * 3 + qi) % 8 : (ep1 + 1) % 8;
+      for (int xsel = 0; xsel < 2; xsel++) {
+        int x = xsel ? xdecl : (ep1 * 8 + ep2 + qi) % NBC;
+        if (x < 0) continue;
+        for (int ord = 0; ord < 2; ord++) {
+          HN = 0;
+          if (!ord) { push_op(c, ep1, 0); push_op(x, ep2, U[x].nmem - 1); push_op(c, ep2, 1); push_op(x, ep1, 0); }
+          else      { push_op(x, ep1, U[x].nmem - 1); push_op(c, ep2, 1); push_op(x, ep2, 0); push_op(c, ep1, 0); }
+          nm_run(n, "cls=%d:%s f=mix x=%s ep1=%d ep2=%d ord=%d", qi, U[c].name, U[x].name, ep1, ep2, ord);
+        }
+      }
+    }
+    /* two colliding names */
+    for (int q2 = 0; q2 < nq; q2++) for (int ep1 = 0; ep1 < 8; ep1++) for (int k2 = 0; k2 < (nm_full ? 8 : 1); k2++) {
+      int ep2 = nm_full ? k2 : (ep1 + 3 + q2) % 8;
+      int c2 = Q[q2];
+      HN = 0; push_op(c, ep1, 0); push_op(c2, ep2, 1); push_op(c, ep2, 1); push_op(c2, ep1, 0);
+      nm_run(n, "cls=%d:%s f=two c2=%d:%s ep1=%d ep2=%d", qi, U[c].name, q2, U[c2].name, ep1, ep2);
+    }
+  }
+  /* sweep */
+  for (int ep0 = 0; ep0 < 8; ep0++) for (int dir = 0; dir < 2; dir++) {
+    HN = 0;
+    for (int i = 0; i < nq; i++) push_op(Q[dir ? nq - 1 - i : i], (ep0 + i) % 8, i & 1);
+    for (int c = 0; c < NBC; c++) { push_op(c, EP_TINST, -1); push_op(c, EP_IMPL, -1); }
+    for (int i = 0; i < nq; i++) { push_op(Q[i], EP_TINST, -1); push_op(Q[i], EP_METH, 0); push_op(Q[i], EP_TIMPLM, 1); }
+    if (nm_run(n, "f=sweep ep0=%d dir=%d", ep0, dir)) nm_api_after(n);
+  }
+}
+
+static void mode_names(void) {
+  vf.phase = "names";
+  nm_full = (int)vf_param_i("full", 0);
+  count_states = 1;
+  setup_bk_classes();
+  static var owbuf1[4 + 2];
+  static var ob[4 + 8];
+  static int vr0[MAXINST + 2];
+  int idx = 0;
+  struct nmtut n;
+
+  /* (a) every exported type, from its cold image */
+  static size_t bsize[sizeof TYS / sizeof TYS[0]];
+  for (int ti = 0; ti < NTY; ti++) bsize[ti] = size(BT[ti].T);
+  restore_world();
+  for (int ti = 0; ti < NTY; ti++, idx++) {
+    if (!in_shard(ti)) continue;
+    memset(&n, 0, sizeof n);
+    n.t = BT[ti]; n.kind = 0; n.idx = idx; n.size = bsize[ti];
+    var K = new_type_raw(TYS[ti].name, sizeof(struct RtC), NULL, 0, 0);
+    nm_class_slot(OW0 + 1, K, TYS[ti].name, owbuf1, 1);
+    nm_tut(&n);
+    del_raw(K);
+  }
+
+  /* (b) statically declared user types */
+  {
+    static const struct { var* objp; const char* name; size_t size; int n; const char* decl[3]; } NS[] = {
+      { &__Name, "__Name", sizeof(struct __Name), 0, { 0 } }, { &__Size, "__Size", 0, 0, { 0 } },
+      { &BkDeclN, "BkDeclN", sizeof(struct BkDeclN), 1, { "__Name" } }, { &BkDeclS, "BkDeclS", sizeof(struct BkDeclS), 2, { "Pri", "__Size" } },
+      { &BkDeclNS, "BkDeclNS", 0, 2, { "__Size", "__Name" } }, { &BkNone, "BkDeclN", sizeof(struct BkDeclN), 0, { 0 } },
+    };
+    static int comp[4]; static var insts[4];
+    for (int si = 0; si < NSU + (int)(sizeof NS / sizeof NS[0]); si++, idx++) {
+      if (!in_shard(idx)) continue;
+      var T; const char* nm; size_t sz; int cnt; const char* const* decl;
+      if (si < NSU) { T = *SU[si].objp; nm = SU[si].name; sz = 0; cnt = SU[si].n; decl = SU[si].decl; }
+      else { T = *NS[si - NSU].objp; nm = NS[si - NSU].name; sz = NS[si - NSU].size; cnt = NS[si - NSU].n; decl = NS[si - NSU].decl; }
+      const char* rn = raw_name_of(T);
+      if (!rn || strcmp(rn, nm) != 0) fatal("static user type %s names itself %s", nm, rn ? rn : "?");
+      for (int i = 0; i < cnt; i++) {
+        comp[i] = find_class(decl[i]);
+        struct Type* tr = rec_triples(T) + 2 + i;
+        if (comp[i] < 0 || !tr->name || strcmp((char*)tr->name, decl[i]) != 0) fatal("static user type %s: declaration table wrong", nm);
+        insts[i] = tr->inst;
+      }
+      if (rec_triples(T)[2 + cnt].name) fatal("static user type %s declares more than the table says", nm);
+      memset(&n, 0, sizeof n);
+      rt_tut(&n.t, T, nm, cnt, comp, vr0, insts, ob);
+      n.t.user_static = 1; n.kind = 1; n.idx = idx; n.size = sz;
+      var K = new_type_raw(nm, 0, NULL, 0, 0);
+      nm_class_slot(OW0 + 1, K, nm, owbuf1, 1);
+      nm_tut(&n);
+      del_raw(K);
+    }
+  }
+
+  /* (c) run-time types */
+  {
+    enum { NSHAPE = 19 };
+    static int comp[MAXINST + 2]; static var insts[MAXINST + 2];
+    int cCmp = find_class("Cmp"), cShow = find_class("Show");
+    for (int sh = 0; sh < NSHAPE; sh++) for (int mg = 0; mg <= 2; mg += 2, idx++) {
+      if (!in_shard(idx)) continue;
+      const char* nm = "?"; size_t sz = 8; int cnt = 0;
+      switch (sh) {
+      case 0: nm = "RtN0"; sz = 0; break;
+      case 1: nm = "RtN1"; sz = 8; break;
+      case 2: nm = "RtN2"; sz = 40; comp[cnt++] = NBC + 0; break;
+      case 3: nm = "RtN3"; sz = 24; comp[cnt++] = cCmp; comp[cnt++] = NBC + 1; comp[cnt++] = cShow; break;
+      case 4: nm = "RtN4"; sz = 8; comp[cnt++] = BK0 + 0; break;
+      case 5: nm = "RtN5"; sz = 16; comp[cnt++] = BK0 + 1; break;
+      case 6: nm = "RtN6"; sz = 512; comp[cnt++] = BK0 + 0; comp[cnt++] = BK0 + 1; break;
+      case 7: nm = "RtN7"; sz = 1; comp[cnt++] = BK0 + 1; comp[cnt++] = NBC + 0; comp[cnt++] = BK0 + 0; break;
+      case 8: nm = "RtN8"; sz = 8; comp[cnt++] = BK0 + 14; break;                                       /* declares the class called "" */
+      case 9: nm = "RtN9"; sz = 8; comp[cnt++] = NBC + 0; comp[cnt++] = BK0 + 14; comp[cnt++] = BK0 + 15; break;
+      case 10: nm = "__Name"; sz = 8; break;                                                            /* types CALLED like the entries */
+      case 11: nm = "__Size"; sz = 24; comp[cnt++] = BK0 + 0; break;
+      case 12: nm = ""; sz = 8; break;
+      case 13: nm = ""; sz = 0; comp[cnt++] = BK0 + 14; break;
+      case 14: nm = "RtSelf"; sz = 8; comp[cnt++] = OW0 + 1; break;                                     /* declares a class of its own name */
+      case 15: nm = "__Name"; sz = 8; comp[cnt++] = BK0 + 16; comp[cnt++] = BK0 + 1; break;           /* instance of the STATIC class object __Name */
+      case 16: nm = "RtBig"; sz = 8; for (int i = 0; i < 255; i++) comp[cnt++] = NBC + i; comp[cnt++] = BK0 + 0; break;
+      case 17: nm = "RtBigNone"; sz = 8; for (int i = 0; i < 256; i++) comp[cnt++] = NBC + i; break;
+      default: nm = "__"; sz = 8; comp[cnt++] = BK0 + 2; comp[cnt++] = BK0 + 3; break;
+      }
+      var K = new_type_raw(nm, sizeof(var), NULL, 0, 0);
+      nm_class_slot(OW0 + 1, K, nm, owbuf1, 1);
+      for (int i = 0; i < cnt; i++) insts[i] = U[comp[i]].inst[0];
+      vf_set_cur("names tut=%d:%s (creating the type)", idx, nm);
+      volatile var Tv = NULL;
+      var e = VF_CATCH(Tv = new_type_raw(nm, sz, insts, cnt, mg));
+      if (e || !Tv) { api_fail("new-type/raised", "new(Type, \"%s\", %zu, %d instances) raised %s", nm, sz, cnt, vf_exc_name(e)); del_raw(K); continue; }
+      R[1] = Tv;
+      memset(&n, 0, sizeof n);
+      rt_tut(&n.t, Tv, nm, cnt, comp, vr0, insts, ob);
+      n.kind = 2; n.idx = idx; n.size = sz;
+      nm_tut(&n);
+      R[1] = NULL;
+      del_type(Tv, mg);
+      del_raw(K);
+    }
+  }
+  acct_ti = -1;
+  vf_extra("names_type_objects", "%" PRIu64, nm_tuts);
+  vf_extra("names_colliding_classes_per_type", "%d", NBK + 2);
+  vf_extra("names_histories", "%" PRIu64, nm_hist);
+  finish_static_counts();
+}
+
 /* ---- mode=typecmp (C09): cmp / eq / hash of type objects, names that are prefixes of one another included ------- */
 
 static int sgn(int x) { return (x > 0) - (x < 0); }
@@ -2566,6 +2848,7 @@ int main(int argc, char** argv) {
   else if (strcmp(mode, "recycle") == 0) mode_recycle();
   else if (strcmp(mode, "api") == 0) mode_api();
   else if (strcmp(mode, "prefix") == 0) mode_prefix();
+  else if (strcmp(mode, "names") == 0) mode_names();
   else if (strcmp(mode, "typecmp") == 0) mode_typecmp();
   else if (strcmp(mode, "null") == 0) mode_null();
   else fatal("unknown mode %s", mode);
